@@ -115,6 +115,63 @@ def gradX (tanh : α → α) (c : Concat2 α) (X coeff : Nat → Nat → α) (i 
   c.f.gradX h (c.g.gradX out coeff) i j
 end Concat2
 
+/-! ### ConcatenatedModel: any number of layers, each optimised or not
+
+Layers: dense layers, element-wise neuron layers (`NeuronLayer<TanhNeuron>` …) and the
+row-wise neuron layers (`NeuronLayer<SoftmaxNeuron>`, `NeuronLayer<NormalizerNeuron>`). -/
+inductive RowKind where
+  | softmax | normalizer
+  deriving DecidableEq, Repr
+
+inductive Layer (α : Type) where
+  | dense (m : Dense α)
+  | neuron (a : Act) (n : Nat)
+  | rowact (k : RowKind) (n : Nat)
+
+namespace Layer
+def nOut : Layer α → Nat
+  | dense m => m.nOut | neuron _ n => n | rowact _ n => n
+def evalB (tanh exp : α → α) : Layer α → (Nat → Nat → α) → Nat → Nat → α
+  | dense m, X => m.evalB tanh X
+  | neuron a _, X => fun i k => a.eval tanh (X i k)
+  | rowact .softmax n, X => fun i k => softmaxRow exp n (X i) k
+  | rowact .normalizer n, X => fun i k => normalizeRow n (X i) k
+def params : Layer α → List α
+  | dense m => m.params | _ => []
+/-- weighted input derivative given the layer's input `X`, output `out` and coefficients -/
+def gradX : Layer α → (X out coeff : Nat → Nat → α) → Nat → Nat → α
+  | dense m, _, out, c => m.gradX out c
+  | neuron a _, _, out, c => fun i k => c i k * a.dfac (out i k)
+  | rowact .softmax n, _, out, c => fun i k => softmaxDeriv n (out i) (c i) k
+  | rowact .normalizer n, X, out, c => fun i k => normalizeDeriv n (out i) (c i) (sumR n (X i)) k
+def gradParams : Layer α → (B : Nat) → (X out coeff : Nat → Nat → α) → List α
+  | dense m, B, X, out, c => m.gradParams B X out c
+  | _, _, _, _, _ => []
+end Layer
+
+/-- a chain of (layer, optimise?) pairs, first layer first -/
+abbrev Chain (α : Type) := List (Layer α × Bool)
+
+namespace Chain
+/-- forward pass: the intermediate outputs of all layers, first layer first -/
+def intermediates (tanh exp : α → α) : Chain α → (Nat → Nat → α) → List (Nat → Nat → α)
+  | [], _ => []
+  | (l, _) :: rest, X => let o := l.evalB tanh exp X; o :: intermediates tanh exp rest o
+def evalB (tanh exp : α → α) (c : Chain α) (X : Nat → Nat → α) : Nat → Nat → α :=
+  ((intermediates tanh exp c X).getLast?).getD X
+/-- `parameterVector()`: parameters of the optimised layers in layer order -/
+def params (c : Chain α) : List α := c.flatMap fun (l, opt) => if opt then l.params else []
+/-- backward pass over the layers (last first); returns the parameter gradient (layer order,
+optimised layers only) and the derivative w.r.t. the chain's input -/
+def backward (tanh exp : α → α) (B : Nat) : Chain α → (X : Nat → Nat → α) → (coeff : Nat → Nat → α) →
+    List α × (Nat → Nat → α)
+  | [], _, coeff => ([], coeff)
+  | (l, opt) :: rest, X, coeff =>
+    let o := l.evalB tanh exp X
+    let (gRest, cIn) := backward tanh exp B rest o coeff       -- coefficients arriving at this layer's output
+    ((if opt then l.gradParams B X o cIn else []) ++ gRest, l.gradX X o cIn)
+end Chain
+
 /-- `Classifier<…>` with arg-max decision: index of the first maximal output -/
 def argmax (n : Nat) (z : Nat → α) : Nat :=
   (List.range n).foldl (fun best k => if z best < z k then k else best) 0
